@@ -80,6 +80,10 @@ pub fn unify(state: &mut TypeCheckerState, watchdog: &DynWatchdog) -> Result<()>
                 Err(Error::StoppedByWatchdog).locate(location)?;
             }
 
+            // Bump our polling counter for every class looked at, including the ones that turn out
+            // to need no work, so that polls stay one per `polling_interval` iterations
+            counter += 1;
+
             // If there are no inferences for this type variable, go to the next one.
             if inferences.is_empty() {
                 continue;
@@ -114,9 +118,6 @@ pub fn unify(state: &mut TypeCheckerState, watchdog: &DynWatchdog) -> Result<()>
 
             // Finally, we have to update the forest's inferences for each type variable
             forest.set_data(&ty_var, InferenceSet::from([current]));
-
-            // Bump our polling counter
-            counter += 1;
         }
 
         #[cfg(feature = "verif-hooks")]
